@@ -175,7 +175,7 @@ func cmdGen(args []string) {
 	w.Flush()
 	f.Close()
 	if *statsOut != "" {
-		b, _ := json.MarshalIndent(E{"traces": *n, "events": events, "outcomes": total}, "", " ")
+		b, _ := json.MarshalIndent(E{"traces": *n, "events": events, "outcomes": total, "plan_kinds": planKindCounts()}, "", " ")
 		os.WriteFile(*statsOut, b, 0o644)
 	}
 	fmt.Printf("gen: profile=%s seed=%d traces=%d events=%d -> %s\n", *profile, *seed, *n, events, *out)
@@ -191,6 +191,8 @@ func cmdReplay(args []string) {
 	numTable := fs.String("num", "general", "number table")
 	timeTable := fs.String("time", "general", "time table")
 	par := fs.Int("par", 8, "parallel")
+	statsOut := fs.String("stats", "", "write statistics (json) here")
+	readAudit := fs.Float64("readaudit", 0, "probability of auditing after a read (events may carry an explicit audit flag)")
 	fs.Parse(args)
 
 	raw, err := os.ReadFile(*in)
@@ -221,6 +223,7 @@ func cmdReplay(args []string) {
 		hists[len(hists)-1] = append(hists[len(hists)-1], e)
 	}
 	results := make([][][]byte, len(hists))
+	allStats := make([]map[string]int, len(hists))
 	var wg sync.WaitGroup
 	sem := make(chan struct{}, *par)
 	for i := range hists {
@@ -244,8 +247,9 @@ func cmdReplay(args []string) {
 				}
 			}
 			header["numTable"], header["timeTable"] = nt, tt
-			lines, _ := runTrace(NewUniverse(nt, tt), bes, hists[i], header, true, 1.0, int64(i))
+			lines, stats := runTrace(NewUniverse(nt, tt), bes, hists[i], header, true, *readAudit, int64(i))
 			results[i] = lines
+			allStats[i] = stats
 		}(i)
 	}
 	wg.Wait()
@@ -263,6 +267,16 @@ func cmdReplay(args []string) {
 	}
 	w.Flush()
 	f.Close()
+	if *statsOut != "" {
+		total := map[string]int{}
+		for _, st := range allStats {
+			for k, v := range st {
+				total[k] += v
+			}
+		}
+		b, _ := json.MarshalIndent(E{"traces": len(hists), "events": events, "outcomes": total, "plan_kinds": planKindCounts()}, "", " ")
+		os.WriteFile(*statsOut, b, 0o644)
+	}
 	fmt.Printf("replay: histories=%d events=%d -> %s\n", len(hists), events, *out)
 }
 
